@@ -117,8 +117,13 @@ def rand : P String := do
   let comp := "makeRandomProbability"
   let v : Verdict := { tag := if us.length == 0 then "trivial" else "rand" }
   let v := v.failIf (out.length != us.length + 1) s!"{comp} wrong_length {out.length}"
-  let v := v.failIf (!(out.all (fun x => decide (0 ≤ x)) && out.sum == 1)) s!"{comp} not_probability sum={ratStr out.sum}"
-  let v := v.diffIf (makeRandomProbability us != out) s!"{comp} model={(makeRandomProbability us).map ratStr} impl={out.map ratStr}"
+  -- draws on the 2^-53 grid: every subtraction is exact, so the sum is exactly one and the model is matched bit for bit;
+  -- finer draws: the spacings are rounded, the clause is `isProbability` and the model is matched to 1e-9
+  let exact := us.all onGrid
+  let v := v.failIf (!(out.all (fun x => decide (0 ≤ x)) && (if exact then out.sum == 1 else isProb out)))
+    s!"{comp} not_probability sum={ratStr out.sum}"
+  let v := v.diffIf (if exact then makeRandomProbability us != out else !(closeL (makeRandomProbability us) out))
+    s!"{comp} model={(makeRandomProbability us).map ratStr} impl={out.map ratStr}"
   let v := v.diffIf (words != 2 * us.length) s!"{comp} draws_consumed words={words} draws={us.length}"
   return v.render
 
